@@ -3,7 +3,9 @@
    the stream's public API and on the channel:
      inb[s]    frames that appeared on the channel towards s, in order (decoded from the channel bytes by the driver)
      kc[s]     number of inbound frames s has PROVABLY consumed: a read that delivered data of frame i proves
-               frames 1..i consumed; a read that returned Pending proves everything available was consumed
+               frames 1..i consumed; a read that returned Pending proves everything available was consumed; a read
+               that returned Ok(0) while the read half was never closed locally proves the next non-data frame
+               consumed (a stream may only report end-of-data after it saw a flag / EOF, and it sees frames in order)
      rdDone/wrDone[s]   poll_close_read / poll_close returned Ok
      rstSeen[s]         an operation of s already failed with ConnectionReset while a RESET frame had arrived
      outFin[s]          s itself put a FIN on the channel
@@ -17,14 +19,14 @@
    Everything else (Pending, error kinds before a reset, flush results, which flags are sent) is unconstrained.
    A panic event has no action => rejected. *)
 EXTENDS TraceIO, FiniteSets
-VARIABLES l, inb, kc, rdDone, wrDone, rstSeen, outFin, err
-vars == <<l, inb, kc, rdDone, wrDone, rstSeen, outFin, err>>
+VARIABLES l, inb, kc, rdDone, rdTouched, wrDone, rstSeen, outFin, err
+vars == <<l, inb, kc, rdDone, rdTouched, wrDone, rstSeen, outFin, err>>
 Sides == {0, 1}
 Fresh == /\ inb' = [s \in Sides |-> <<>>] /\ kc' = [s \in Sides |-> 0]
-         /\ rdDone' = [s \in Sides |-> FALSE] /\ wrDone' = [s \in Sides |-> FALSE]
+         /\ rdDone' = [s \in Sides |-> FALSE] /\ rdTouched' = [s \in Sides |-> FALSE] /\ wrDone' = [s \in Sides |-> FALSE]
          /\ rstSeen' = [s \in Sides |-> FALSE] /\ outFin' = [s \in Sides |-> FALSE] /\ err' = "ok"
 Init == /\ l = 1 /\ inb = [s \in Sides |-> <<>>] /\ kc = [s \in Sides |-> 0]
-        /\ rdDone = [s \in Sides |-> FALSE] /\ wrDone = [s \in Sides |-> FALSE]
+        /\ rdDone = [s \in Sides |-> FALSE] /\ rdTouched = [s \in Sides |-> FALSE] /\ wrDone = [s \in Sides |-> FALSE]
         /\ rstSeen = [s \in Sides |-> FALSE] /\ outFin = [s \in Sides |-> FALSE] /\ err = "ok" /\ InitReg
 R == Rec[l]
 Closers == {"fin", "reset", "eof", "findata"}
@@ -45,10 +47,10 @@ Wire == /\ R.e = "wire"
         /\ LET from == 1 - R.to IN
            /\ outFin' = [outFin EXCEPT ![from] = @ \/ (R.src = "stream" /\ R.k \in {"fin", "findata"})]
            /\ err' = IF R.src = "stream" /\ R.k = "data" /\ outFin[from] THEN "WriteOnlyWhileOpen" ELSE "ok"
-        /\ UNCHANGED <<kc, rdDone, wrDone, rstSeen>>
+        /\ UNCHANGED <<kc, rdDone, rdTouched, wrDone, rstSeen>>
 Env == /\ R.e \in {"env", "dl"}
        /\ IF R.e = "env" /\ R.a = "eof" THEN inb' = [inb EXCEPT ![R.s] = Append(@, [k |-> "eof", tag |-> 0])] ELSE UNCHANGED inb
-       /\ err' = "ok" /\ UNCHANGED <<kc, rdDone, wrDone, rstSeen, outFin>>
+       /\ err' = "ok" /\ UNCHANGED <<kc, rdDone, rdTouched, wrDone, rstSeen, outFin>>
 Op == /\ R.e = "op"
       /\ LET s == R.s
              isRead == R.op \in {"read", "read1"}
@@ -56,14 +58,18 @@ Op == /\ R.e = "op"
              tags == IF Has(R, "tags") THEN SetOf(R.tags) ELSE {}
              delivered == isRead /\ R.res = "ok"
              pos == UNION {AnyPos(s, t) : t \in tags}
+             nextFlag == {j \in (kc[s] + 1)..Len(inb[s]) : inb[s][j].k # "data"}
+             sawEnd == isRead /\ R.res = "eof" /\ ~rdTouched[s] /\ nextFlag # {}
          IN
          /\ err' = IF ResetKnown(s) /\ R.op \in Guarded /\ R.res # "ConnectionReset" THEN "AfterReset"
                    ELSE IF delivered /\ (rdDone[s] \/ \E t \in tags : LegalPos(s, t) = {}) THEN "ReadOnlyWhileOpen"
                    ELSE IF isWrite /\ R.res = "ok" /\ (wrDone[s] \/ StopKnown(s)) THEN "WriteOnlyWhileOpen"
                    ELSE "ok"
          /\ kc' = [kc EXCEPT ![s] = IF isRead /\ R.res = "pending" THEN Len(inb[s])
+                                    ELSE IF sawEnd THEN CHOOSE j \in nextFlag : \A k \in nextFlag : j <= k
                                     ELSE IF delivered /\ pos # {} /\ Max(pos) > @ THEN Max(pos) ELSE @]
          /\ rdDone' = [rdDone EXCEPT ![s] = @ \/ (R.op = "close_read" /\ R.res = "ok")]
+         /\ rdTouched' = [rdTouched EXCEPT ![s] = @ \/ R.op = "close_read"]
          /\ wrDone' = [wrDone EXCEPT ![s] = @ \/ (R.op = "close" /\ R.res = "ok")]
          /\ rstSeen' = [rstSeen EXCEPT ![s] = @ \/ (R.res = "ConnectionReset" /\ HasReset(s))]
          /\ UNCHANGED <<inb, outFin>>
